@@ -20,7 +20,7 @@ pub fn def() -> PropDef {
     gen,
     check,
     panic_policy: PanicPolicy::Count,
-    rule: "random ASCII source trees with consistent leaf maps (as C02); for each column setting the non-final chunk stream and map() of the same object are turned into attribution tables (reference decoder) and compared at every character; non-trivial = tree has a composite and >=1 mapped and >=1 unmapped character was compared; distinct = spec fingerprint",
+    rule: "random ASCII source trees with consistent leaf maps (as C02); for each column setting the non-final chunk stream and map() of the same object are turned into attribution tables (reference decoder) and compared at every character; non-trivial = tree has a composite and >=1 mapped and >=1 unmapped character was compared; trees repeat an earlier sibling now and then and, in every second case, equal Cached nodes of the tree under test are one shared instance / clones sharing one cache; the order of the two calls (stream, map) is drawn per case; distinct = spec fingerprint",
     cases: |t| match t {
       Tier::Quick => 150_000,
       Tier::Thorough => 2_000_000,
